@@ -32,16 +32,19 @@ var (
 			"small or lands at 999999/1000000/1000001/1999999/2000000/2000001/3.5M (calibrated against the fetched length); oracle: fetched bytes "+
 			"parse back to the client's own request (method, target, token header, body), every client receives status, headers and body of the "+
 			"response posted under its own id, a completed id is absent from later pending lists; non-trivial = at least 2 requests in flight for "+
-			"one backend or a payload >= 1000000 bytes; distinct = SHA-256 of the case")
+			"one backend or a payload >= 1000000 bytes; distinct = SHA-256 of the case"+
+			" Later additions: backend ids of 400 bytes; request targets with query strings a canonicalising hop would rewrite.")
 	recB = vh.NewRecorder("C19", "blobs",
 		"requests and responses of sizes {0,1,999999,1000000,1000001,1999999,2000000,2000001,3000001,3500000, and 11-31 MB needing ten and more parts} written and read back through "+
 			"cache.NewCachingStore(store.NewPersistentStore()) in-process on the fake datastore/memcache, with memcache kept or flushed between "+
-			"write and read; oracle: byte-identical contents and metadata; non-trivial = size >= 1000000")
+			"write and read; oracle: byte-identical contents and metadata; non-trivial = size >= 1000000"+
+			" Later additions: 11-31 MB payloads (ten and more parts); writes whose first 1/2/4/5/7/all blob-part Puts fail (the write must return within 60 s and success implies a complete read-back).")
 	recF = vh.NewRecorder("C19", "store-faults",
 		"one relayed request with injected failures of store operations (request Put, blob-part Put, response Put, completed-flag Put, Get, "+
 			"RunQuery, memcache Set, memcache Get; the first 1-5 matching calls fail) during the phase {store, list, fetch, respond}; oracle: every "+
 			"HTTP call returns within 8 s (the waiting client within 45 s) with the correct result or an error status, a response re-posted "+
-			"without faults reaches the client intact, never partial or foreign bytes as success; non-trivial = at least one injected failure was hit")
+			"without faults reaches the client intact, never partial or foreign bytes as success; non-trivial = at least one injected failure was hit"+
+			" Later additions: two or three of {response Put, completed-flag Put, memcache Set, part Put} failing together while a response is posted.")
 )
 
 func TestMain(m *testing.M) {
